@@ -34,6 +34,7 @@ type World struct {
 	caseFactHooks []func(*Frame, *State, *Contract, string)
 	knownCases  map[string][]string // function -> input classes of its known findings
 	externOld    map[string]bool   // extern methods whose reference results existed before the call
+	externHavoc  map[string]bool   // extern functions that may write any memory (treated as unknown code)
 	externPure   map[string]bool   // extern methods whose result is a function of receiver and arguments (getters)
 	externFresh  map[string]bool   // extern methods whose reference results are fresh allocations
 	externFrames map[string]string // interface methods of components outside the verified code (assumed frame-only)
@@ -53,7 +54,7 @@ type World struct {
 func NewWorld(repo string) *World {
 	w := &World{repo: repo, pkgs: map[string]*ssa.Package{}, byFn: map[*ssa.Function]*Contract{}, specFns: map[string]*SpecFn{},
 		typeTags: map[string]int{}, tagTypes: map[int]types.Type{}, models: map[string]Model{}, modelWrites: map[string][]string{},
-		preHooks: map[string]func(*Frame, *State){}, inlined: map[string]bool{}, assumedSet: map[string]bool{}, externFrames: map[string]string{}, externFresh: map[string]bool{}, externPure: map[string]bool{}, externOld: map[string]bool{}, ctUses: map[string]bool{},
+		preHooks: map[string]func(*Frame, *State){}, inlined: map[string]bool{}, assumedSet: map[string]bool{}, externFrames: map[string]string{}, externFresh: map[string]bool{}, externPure: map[string]bool{}, externOld: map[string]bool{}, externHavoc: map[string]bool{}, ctUses: map[string]bool{},
 		globalIDs: map[*ssa.Global]int{}, loopCache: map[*ssa.Function]*LoopInfo{},
 		replayHooks: map[string]func(*World, checkOpts, *Obligation) *ReplayResult{}}
 	registerModels(w)
@@ -156,6 +157,13 @@ func (w *World) noteInlined(k string) { w.mu.Lock(); w.inlined[k] = true; w.mu.U
 // externKey resolves an extern declaration for a call made while verifying a function of package
 // scope (package-local declaration first, then the global ones).
 func (w *World) externKey(scope, name string) (string, bool) {
+	// scope may be "pkg#function": a declaration limited to that function comes first
+	if i := strings.Index(scope, "#"); i >= 0 {
+		if _, ok := w.externFrames[scope+"|"+name]; ok {
+			return scope + "|" + name, true
+		}
+		scope = scope[:i]
+	}
 	if _, ok := w.externFrames[scope+"|"+name]; ok {
 		return scope + "|" + name, true
 	}
